@@ -10,6 +10,7 @@ From AS.Model Require Import Table Ops.
 From AS Require Import Effects.
 From AS.Model Require Import Sgr Tokenizer Render Scrub Parse StrOps FormatSpec Exec.
 From AS.Proofs Require Import TableProofs SliceProofs PadProofs RemoveProofs GenFns ExecProofs InvariantProofs ReachableCorollaries.
+From AS.Proofs Require GenGuards.
 
 Theorem C07_text : forall s sel st en, base (remove_fmt s sel st en) = base s.
 Proof.
@@ -65,6 +66,18 @@ Theorem C07_bounds_are_code : forall (len : nat) (v : option Z) (d : nat),
   Z.of_nat (slice_idx len v d) = AS.Gen.Fns.gen_slice_val_to_idx (Z.of_nat len) v (Z.of_nat d).
 Proof. exact slice_idx_is_code. Qed.
 Print Assumptions C07_bounds_are_code.
+
+(* ... and the "empty range is a no-op" test IS the code's guard (`if (settings is not None and not settings) or
+   start >= len(self._s) or end <= start: return`, re-translated on every run): for settings=None or a truthy
+   selection it is Ops.range_empty; a selection that is given and falsy always returns at once *)
+Theorem C07_guard_is_code : forall (len start e : nat) (none truthy : bool),
+  none = true \/ truthy = true ->
+  range_empty len start e = AS.Gen.Fns.gen_remove_skip none truthy (Z.of_nat start) (Z.of_nat e) (Z.of_nat len).
+Proof. exact GenGuards.remove_guard_is_code. Qed.
+Theorem C07_guard_falsy : forall start e len : Z, AS.Gen.Fns.gen_remove_skip false false start e len = true.
+Proof. exact GenGuards.remove_guard_falsy. Qed.
+Print Assumptions C07_guard_is_code.
+Print Assumptions C07_guard_falsy.
 
 (* FOR EVERY REACHABLE VALUE, every selection and every range *)
 Theorem C07_reachable : forall p o sel st en, reachable_ok p -> In o (objs p) ->
